@@ -40,6 +40,8 @@ type history struct {
 	Name  string          `json:"name,omitempty"`
 	// features of the history (for the non-triviality rule)
 	EndByClose, Collision, Failure bool
+	// Pressure names the limit-pressure burst spliced into the history ("" = none)
+	Pressure string `json:"pressure,omitempty"`
 }
 
 func pause(r *rand.Rand) int {
@@ -414,6 +416,132 @@ func genHistory(r *rand.Rand, g *wsclient.Gen, seed int64) *history {
 	return h
 }
 
+// endsConnection reports whether a top-level step may end the connection.
+func endsConnection(st *wsclient.Step) bool {
+	switch st.Kind {
+	case "close", "failwrite":
+		return true
+	case "raw":
+		for _, u := range undecodable {
+			if st.Raw == u {
+				return true
+			}
+		}
+	case "gate":
+		for i := range st.Then {
+			if st.Then[i].Kind == "close" {
+				return true
+			}
+		}
+	}
+	return false
+}
+
+// addLimitPressure widens a generated history with the dimension "the client
+// keeps asking for more subscriptions than the limit leaves room for": at a
+// random point before the step that ends the connection it splices in a burst
+// of MaxSubs+1..MaxSubs+3 subscribes with fresh, distinct ids (pipelined,
+// awaited one by one, or a mix), so that the limit is certainly reached and
+// at least one subscribe must be refused whatever was live before. The burst
+// is combined with the other events of the property's quantifier: the
+// connection context is cancelled (the socket stays open) before a random
+// subscribe of the burst; or some of the burst fail initially (their slots are
+// freed asynchronously); afterwards nothing, or a random subset is
+// unsubscribed and one more than that is subscribed again (exactly the freed
+// room may be re-used), or all of the burst is unsubscribed. The oracle is
+// unchanged: by the logger's account (Subscribe minus Unsubscribe) there are
+// never more than MaxSubs live subscriptions, and a subscribe that arrives at
+// the limit gets an error.
+func addLimitPressure(r *rand.Rand, g *wsclient.Gen, h *history) {
+	end := len(h.Steps)
+	for i := range h.Steps {
+		if endsConnection(&h.Steps[i]) {
+			end = i
+			break
+		}
+	}
+	at := end
+	if end > 1 {
+		at = 1 + r.Intn(end)
+	}
+	seq := 0
+	mode := r.Intn(3)
+	var booms int64
+	sub := func(boom bool) wsclient.Step {
+		seq++
+		id, tag := fmt.Sprintf("p%d", seq), fmt.Sprintf("tp%d", seq)
+		q, _ := g.GenQuery(tag, wsclient.QueryOpts{Res: true, Boom: boom, LQ: boom && r.Intn(2) == 0})
+		st := wsclient.Step{Kind: "sub", ID: id, Tag: tag, Query: q}
+		switch mode {
+		case 1:
+			st.Wait = true
+		case 2:
+			st.Wait, st.PauseUS = r.Intn(2) == 0, pause(r)
+		}
+		return st
+	}
+	var ins []wsclient.Step
+	k := h.Cfg.MaxSubs + 1 + r.Intn(3)
+	cancelBefore := -1
+	switch r.Intn(4) {
+	case 0, 1:
+		cancelBefore = r.Intn(k)
+		h.Pressure = "cancel"
+	case 2:
+		booms = int64(1 + r.Intn(wsclient.BoomShapes))
+		ins = append(ins, wsclient.Step{Kind: "write", Op: g.AddOp(wsclient.Op{Cell: "boom", Val: booms})})
+		h.Pressure = "failing"
+	default:
+		h.Pressure = "plain"
+	}
+	for j := 0; j < k; j++ {
+		if j == cancelBefore {
+			ins = append(ins, wsclient.Step{Kind: "cancel", PauseUS: pause(r)})
+		}
+		ins = append(ins, sub(booms != 0 && r.Intn(2) == 0))
+	}
+	ins = append(ins, wsclient.Step{Kind: "sync", PauseUS: pause(r)})
+	if booms != 0 {
+		ins = append(ins, wsclient.Step{Kind: "write", Op: g.AddOp(wsclient.Op{Cell: "boom", Val: int64(0)}), PauseUS: pause(r)})
+	}
+	switch r.Intn(3) {
+	case 1: // free a random subset, then ask for one more than was freed
+		freed := 0
+		for j := 1; j <= k; j++ {
+			if r.Intn(2) == 0 {
+				freed++
+				ins = append(ins, wsclient.Step{Kind: "unsub", ID: fmt.Sprintf("p%d", j), Wait: mode == 1})
+			}
+		}
+		for j := 0; j <= freed; j++ {
+			ins = append(ins, sub(false))
+		}
+		ins = append(ins, wsclient.Step{Kind: "sync", PauseUS: pause(r)})
+		h.Pressure += "+refill"
+	case 2: // make room again for the rest of the history
+		for j := 1; j <= k; j++ {
+			ins = append(ins, wsclient.Step{Kind: "unsub", ID: fmt.Sprintf("p%d", j), Wait: mode == 1})
+		}
+		ins = append(ins, wsclient.Step{Kind: "sync", PauseUS: pause(r)})
+		h.Pressure += "+release"
+	}
+	tail := append([]wsclient.Step(nil), h.Steps[at:]...)
+	if cancelBefore >= 0 {
+		h.Failure = true
+		// pacing only: "idle" waits (bounded) for the first envelope of every
+		// live subscription, which never comes once the context is cancelled
+		for i := range tail {
+			if tail[i].Kind == "idle" {
+				tail[i].Kind = "pause"
+			}
+		}
+	}
+	if booms != 0 {
+		h.Failure = true
+	}
+	h.Steps = append(append(h.Steps[:at:at], ins...), tail...)
+}
+
 // pinned histories: minimal reproducers of the known defects and of the rules.
 func pinnedHistory(idx int, g *wsclient.Gen, seed int64) *history {
 	cfg := wsclient.Config{Seed: seed, MaxSubs: 2, MinRerunUS: 1000, YieldIntensity: 0, DefMode: wsclient.ModeReplace}
@@ -489,7 +617,7 @@ func TestCheck(t *testing.T) {
 	run.Rule("histories over one websocket connection (scripted JSONSocket, recording SubscriptionLogger, WithMaxSubscriptions 2-4, 0-9 pass-through middlewares): 10-35 steps of subscribe / unsubscribe / mutate / echo / url / malformed envelopes with ids from a pool of 3 shared by ALL message types (plus fresh ids), undecodable frames, " +
 		"writes and invalidate-everything steps, resolver failures (initial and on re-run; plain, safe, and errors wrapping context.Canceled / DeadlineExceeded of a resolver-owned context; failing mutations), context cancellation, socket close at a random step (ReadJSON error) or through a failing WriteJSON, gate steps (a resolver of an in-flight run is held while an unsubscribe(+re-subscribe) / close / cancel / colliding mutate / subscribe lands), " +
 		"an unsubscribe-all / close sent a fraction of the write-then-read delay after a write that invalidates an idle subscription, a motif: a slow mutation with id X, unsubscribe X while it runs, subscribe X, then that subscription ends by unsubscribe / close / own failure; a motif: the connection context is cancelled while a re-run is inside a context-honouring resolver; a motif: a successful subscription fails on a re-run (retry), then unsubscribes / recovers and unsubscribes / the connection closes, a failing-subscribe+unsubscribe+re-subscribe motif, unsubscribe+subscribe played while a closeSubscription call is held at its entry, writes injected at hook points; every subscription query carries a unique tag that its resolvers log and a field that creates a reactive.Resource with a Cleanup counter; some also select a live-query field that registers a counted Resource inside the public reactive.Cache and then fails (initially / transiently on re-runs). " +
-		"reactive.WriteThenReadDelay is 0 in 2/5 of the histories and 0.5-3 ms in the rest. Every history ends with socket close, three invalidate-everything settle rounds and a quiescence wait. 8 pinned histories first; the last four are stress histories, each 1600 (thorough 6000) rounds of subscribe x4 / one write invalidating all / mutation + unsubscribe x4 pipelined at once, with a per-round timing jitter (Stop racing the wake-up of a re-run or of the initial run, under RerunImmediately contention). Non-trivial = the history has an end-by-close, an id collision or a failure. Distinct = step-kind sequence + end kinds of the instances.")
+		"reactive.WriteThenReadDelay is 0 in 2/5 of the histories and 0.5-3 ms in the rest. Every history ends with socket close, three invalidate-everything settle rounds and a quiescence wait. A third of the generated histories (own random stream) additionally get a limit-pressure burst spliced in at a random point before the step that ends the connection: MaxSubs+1..MaxSubs+3 subscribes with fresh distinct ids (pipelined / awaited / mixed), in half of them with the connection context cancelled (socket left open) before a random subscribe of the burst, in a quarter with some of the burst failing initially; then nothing / a random subset unsubscribed and one more than that subscribed again / all unsubscribed. 8 pinned histories first; the last four are stress histories, each 1600 (thorough 6000) rounds of subscribe x4 / one write invalidating all / mutation + unsubscribe x4 pipelined at once, with a per-round timing jitter (Stop racing the wake-up of a re-run or of the initial run, under RerunImmediately contention). Non-trivial = the history has an end-by-close, an id collision or a failure. Distinct = step-kind sequence + end kinds of the instances.")
 	run.Assume("a subscription instance is a logger Subscribe call inside the handle window of a subscribe message; it ends at the first of: logger Unsubscribe(id), read-enter after its unsubscribe message, ServeJSONSocket returned")
 	run.Assume("Unsubscribe logger calls for ids of mutations (never subscribed) are tolerated")
 	run.Assume("rejecting a subscribe early (a mutation in flight occupies a slot or an id) is not a violation")
@@ -512,6 +640,12 @@ func runCase(run *vlib.Run, agg *vlib.HitAgg, i int) {
 		h = pinnedHistory(i, g, seed)
 	} else {
 		h = genHistory(r, g, seed)
+		// a third of the generated histories additionally ask for more
+		// subscriptions than the limit allows (own stream: the other
+		// histories are what they were before this dimension existed)
+		if pr := run.Rand("limit", i); pr.Intn(3) == 0 {
+			addLimitPressure(pr, g, h)
+		}
 	}
 	boomOff := g.AddOp(wsclient.Op{Cell: "boom", Val: int64(0)})
 	s := wsclient.StartSession(h.Cfg, g)
@@ -707,6 +841,25 @@ func runCase(run *vlib.Run, agg *vlib.HitAgg, i int) {
 	run.Count("log_events", len(a.Events))
 	if a.MaxLive >= h.Cfg.MaxSubs {
 		run.Count("histories_reaching_the_limit", 1)
+	}
+	if h.Pressure != "" {
+		run.Count("limit_pressure:"+h.Pressure, 1)
+		refused := 0
+		for _, e := range a.Events {
+			if e.Kind == wsclient.EvWrite && e.Sync && e.Type == "error" && strings.HasPrefix(e.ID, "p") {
+				refused++
+			}
+		}
+		run.Count("limit_pressure_subscribes_refused", refused)
+		if a.CtxCancelSeq >= 0 {
+			after := 0
+			for _, inst := range a.Instances {
+				if inst.SubSeq > a.CtxCancelSeq {
+					after++
+				}
+			}
+			run.Count("subscriptions_accepted_after_ctx_cancel", after)
+		}
 	}
 	nontrivial := h.EndByClose || h.Collision || h.Failure
 	run.Case(strings.Join(kinds, ",")+"|"+strings.Join(ends, ","), nontrivial)
